@@ -9,7 +9,8 @@ CONST_RULES = [
     S(r'sizeof\.\.\.\(Terms\)', 'P_TERMS', min=0),
     S(r'sizeof\.\.\.\(NTerms\)', 'P_NTERMS', min=0),
     S(r'sizeof\.\.\.\(Rules\)', 'P_RULES', min=0),
-    S(r'meta::max_v<1,\s*Rules::n\.\.\.>', 'P_MAXLEN', min=0),
+    S(r'meta::max_v<1,\s*Rules::n\.\.\.>', 'P_MAXLEN', min=0),            # max(1, longest rule): P_MAXLEN >= 1 in VX_PARAMS_OK is this `1`
+    S(r'meta::max_v<Rules::n\.\.\.>', 'P_MAXRULE0', min=0),               # without the 1: the longest user rule, possibly 0
     S(r'meta::count_zeros<Rules::n\.\.\.>', 'P_EMPTY', min=0),
     S(r'\(0 \+ \.\.\. \+ \(Rules::n \+ 1\)\)', 'P_SUM_N1', min=0),
     S(r'get_limits<Limits,\s*situation_count>::state_count_cap', 'P_STATE_CAP', min=0),
@@ -58,7 +59,7 @@ def types(ph_states, ph_syms, ph_rules, ph_maxlen, ph_terms, ph_nterms):
 #define PH_TERMS %d
 #define PH_NTERMS %d
 /* ghost template parameters (R9): sizeof...(Terms), sizeof...(NTerms), sizeof...(Rules), max rule length, ... */
-size_t P_TERMS, P_NTERMS, P_RULES, P_MAXLEN, P_EMPTY, P_SUM_N1, P_STATE_CAP, P_SIT_CAP, P_BUFN;
+size_t P_TERMS, P_NTERMS, P_RULES, P_MAXLEN, P_EMPTY, P_SUM_N1, P_STATE_CAP, P_SIT_CAP, P_BUFN, P_MAXRULE0;
 #define VX_PARAMS_OK (P_TERMS <= PH_TERMS - 2 && P_NTERMS <= PH_NTERMS - 1 && P_RULES <= PH_RULES - 1 && P_MAXLEN >= 1 && P_MAXLEN <= PH_MAXLEN \
    && P_EMPTY <= P_RULES && P_STATE_CAP >= 1 && P_STATE_CAP <= PH_STATES && PH_TERMS + PH_NTERMS <= PH_SYMS)
 struct rule_info { size16_t l_idx; size16_t r_idx; size16_t r_elements; };
